@@ -58,4 +58,6 @@ def run(ctx):
     S.session_fresh(ctx, L)
     ctx.rule("R-DT-MINLEN", "FD.TP.DT frames with header + 1..60 data bytes are not dropped by the length test", floor=1)
     S.dt_minlen(ctx, L)
+    ctx.rule("R-REPLY-ARMS", "CTS with a grant stores window end, sending state, immediate deadline and wakes the job thread; the end-of-message acknowledge tells the listeners and finishes the session", floor=2)
+    S.reply_arms(ctx, L)
     return "structural necessary conditions of C02 decided on j1939_22.py"
